@@ -119,10 +119,7 @@ theorem exec_sound {s s' : St} {l : Lbl} (h : exec s l = some s') : Step s s' :=
     · cases h
   | procGiveUp =>
     simp only [exec] at h; split at h
-    · rename_i b ho
-      split at h
-      · rename_i hc; cases h; exact Step.procGiveUp s b ho hc
-      · cases h
+    · rename_i b ho; cases h; exact Step.procGiveUp s b ho
     · cases h
   | procFree =>
     simp only [exec] at h; split at h
